@@ -237,7 +237,7 @@ pub open spec fn mod_pair_ok(now: int, id: Seq<char>, secs: i32, r: Result<Deadl
 //@include prelude/proto.rs
 
 //@fn src/api/subscriber.rs SubscriberService::create_subscription tags=C04 name=ack_deadline_region tail=ack_deadline
-//@ region /let ack_deadline = match request\.ack_deadline_seconds \{/ /^\s*\};\s*$/ as fn ack_deadline_region(request: &SubscriptionProto) -> (ack_deadline: Duration)
+//@ region /^\s*let ack_deadline = / /^\s*\};\s*$/ as fn ack_deadline_region(request: &SubscriptionProto) -> (ack_deadline: Duration)
 //@ # C04/C10: the effective ack deadline is the requested one, but at least 10 s, for every i32
 //@ ensures[C04] dur_ns(ack_deadline) == (if request.ack_deadline_seconds <= 10 { 10 } else { request.ack_deadline_seconds as int }) * 1_000_000_000
 //@end
